@@ -161,7 +161,11 @@ pub fn run(tier: Tier) -> i32 {
                 let p5 = format!("{} <= `[1]`", src);
                 let p6 = format!("xs[?'s' > {}]", src);
                 let p7 = format!("`true` == {}", src);
-                for w in [p1, p2, p3, p4, p5, p6, p7] {
+                // the right-hand side of a projection is evaluated for every element, null elements included
+                let p8 = format!("`[null]`[*].{}", src);
+                let p9 = format!("`[[null, null]]`[].{}", src);
+                let p10 = format!("`{{\"k\": null}}`.*.{}", src);
+                for w in [p1, p2, p3, p4, p5, p6, p7, p8, p9, p10] {
                     crate::checks::c06::check_wrapped(&w, &src, &d, st);
                 }
             }
